@@ -162,6 +162,38 @@ def add_set_names(rng, pkg, p=0.7):
     sd["fields"].insert(rng.randrange(0, len(sd["fields"]) + 1), ctorgen.fdecl([n], t, [d]))
 
 
+SETTER_ONLY_FIELDS = ["revision", "editor", "audit_no"]
+
+
+def add_setter_only_embedded(rng, pkg, p=0.45):
+    """a WRITE-ONLY shoot type (type directive `shoot: setter`: it contributes a TSetter interface and no TGetter) that a
+    later type of the same run embeds: the promoted setters reach the embedding type's JSON code only through the package
+    reloaded with T's fresh output (first generation, no earlier output on disk)"""
+    emb = sorted(ctorgen.embedded_struct_names(pkg))
+    if not emb or rng.random() >= p:
+        return
+    pick = rng.choice(emb)
+    sd = next(x for x in pkg["structs"] if x["name"] == pick)
+    sd["comment"] = list(rng.choice([["// shoot: setter"], ["// some type", "//shoot: setter;"], ["//shoot:setter"]]))
+    sd["doc"] = ctorgen.doc_text(sd["comment"])
+    sd["_setter_only"] = True
+    used = set(n for x in pkg["structs"] for fd in x["fields"] for n in fd["names"])
+    n = rng.choice(SETTER_ONLY_FIELDS)
+    if n not in used:
+        # a field without directive: both accessors by default, only the setter under the type's switch
+        t = ctorgen.T_basic(rng.choice(["int", "string", "bool"]))
+        sd["fields"].insert(rng.randrange(0, len(sd["fields"]) + 1), ctorgen.fdecl([n], t))
+
+
+def setter_only_embedded(pkg):
+    """selected structs that directly embed a selected struct made write-only by add_setter_only_embedded"""
+    if not pkg["getset"]:
+        return 0
+    so = set(sd["name"] for sd in pkg["structs"] if sd.get("_setter_only") and sd["name"] in pkg["order"])
+    return sum(1 for sd in pkg["structs"] if sd["name"] in pkg["order"] and
+               any(not fd["names"] and ctorgen.short_name(fd["ty"]) in so for fd in sd["fields"]))
+
+
 def json_tag_of(fd):
     if fd["tag"] is None:
         return ""
@@ -227,21 +259,28 @@ def gen_packages(run, n):
     pkgs, stats = [], {"regenerated": 0, "outside_guard_kept": 0, "fatal_expected": 0, "key_collision_kept": 0,
                    "key_collision_regenerated": 0}
     k = 0
+    # the first packages of every run are of one fixed class, inside the guard: a write-only shoot type embedded by a later
+    # type of the same -getset -json run (first generation; depends on the package being reloaded after EVERY type)
+    need = 3 if n < 100 else 10
     while len(pkgs) < n:
         k += 1
         name = "j%03d" % len(pkgs)
+        force = len(pkgs) < need and k < 40 * n
         style = run.rng.random()
+        if force:
+            style = 0.3
         if style < 0.2:
             opts = dict(p_embed=0.0, p_generic=0.25)
         elif style < 0.65:
             opts = dict(p_embed=0.95, nstructs=run.rng.choice([3, 4, 5]))
         else:
             opts = dict(p_embed=0.8)
-        getset = run.rng.random() < 0.85
-        fatal = getset and run.rng.random() < 0.03
+        getset = run.rng.random() < 0.85 or force
+        fatal = getset and run.rng.random() < 0.03 and not force
         pkg = ctoracc.gen_acc_pkg(run.rng, name, p_exported_dir=0.5 if fatal else 0.0, **opts)
         add_exported_snake(run.rng, pkg)
         add_set_names(run.rng, pkg)
+        add_setter_only_embedded(run.rng, pkg, p=1.0 if force else 0.45)
         add_json_tags(run.rng, pkg)
         ctoracc.add_groups(run.rng, pkg, p=0.08)
         names = [sd["name"] for sd in pkg["structs"]]
@@ -256,6 +295,10 @@ def gen_packages(run, n):
             classes = ["out" if x == "in" else x for x in classes] + ["collision"]     # K_json_key_collision class
         elif collide:
             classes.append("bad")
+        pkg["order"], pkg["getset"] = selected, getset
+        if force and (set(classes) != {"in"} or not setter_only_embedded(pkg)):
+            stats["regenerated"] += 1
+            continue
         if "bad" in classes or (classes.count("out") and "collision" not in classes and run.rng.random() < 0.9):
             stats["regenerated"] += 1
             stats["key_collision_regenerated"] += 1 if collide else 0
@@ -812,6 +855,7 @@ def main(run):
             continue
         bump("tagcase_" + pkg["tagcase"])
         bump("with_getset" if pkg["getset"] else "json_only")
+        bump("structs_embedding_a_setter_only_type", setter_only_embedded(pkg))
         for sd in pkg["structs"]:
             o = obs.get((pkg["name"], sd["name"]))
             if o is None or o["status"] != 0:
